@@ -21,7 +21,8 @@ RULE = ("Cases: centred unit-variance X (tall/wide/square, 30% rank-deficient), 
         "(thorough: 30) competitor k-frames per case (random, PCA's, leading frame of [Yhat,X], perturbations of PCovR's own "
         "frame at scales 1e-1..1e-3).  Non-trivial: 0 < mixing < 1, k below the rank of K~, both loss terms > 1e-6; "
         "distinct = SHA-1 of the canonical case.  A quarter of the cases carry a second, small data set with nearly collinear features "
-        "(condition number 1e7..1e9) for the precomputed-regression route in sample space.")
+        "(condition number 1e7..1e9) for the precomputed-regression route in sample space; a sixth carry a 28..60 x 24..45 data set with a "
+        "flat spectrum that is fitted with the default solver policy and held to the Ky-Fan optimum.")
 ASSUMPTIONS = [
     "objective values are compared with tolerance 1e-8 x max(objective, 1); losses along the mixing grid with 1e-7 x max(1, |X|^2)",
     "coordinate comparisons with PCA are made per component only where its eigenvalue is separated by a relative gap > 1e-6",
@@ -46,7 +47,15 @@ def strategy_(draw, tier):
         Xi = pc.centre_norm(Xi)
         Yi = pc.centre_norm(Xi @ gen.normal(draw, (mi, draw(st.integers(1, 2)))) + 0.5 * gen.normal(draw, (ni, 1)))
         ill = {"X": Xi, "Y": Yi}
-    return {"shape": d["shape"], "lowrank": d["lowrank"], "X": X, "Y": Y, "k": k, "ill": ill,
+    large = None
+    if draw(st.integers(0, 5)) == 0:
+        # a larger data set with a flat spectrum, fitted with the DEFAULT solver policy: whatever route that policy takes, the
+        # retained subspace has to be the optimum (for data this small the documented policy is the exact solver)
+        nl, ml = draw(st.integers(28, 60)), draw(st.integers(24, 45))
+        Xl = pc.centre_norm(gen.normal(draw, (nl, ml)))
+        Yl = pc.centre_norm(Xl @ gen.normal(draw, (ml, 2)) + 0.5 * gen.normal(draw, (nl, 2)))
+        large = {"X": Xl, "Y": Yl, "k": draw(st.integers(1, 4)), "mixing": draw(st.sampled_from([0.3, 0.7, 1.0]))}
+    return {"shape": d["shape"], "lowrank": d["lowrank"], "X": X, "Y": Y, "k": k, "ill": ill, "large": large,
             "space": draw(st.sampled_from(["feature", "sample"])),
             "alpha": draw(st.sampled_from([1e-6, 1e-2, 1.0])),
             "mixing": draw(st.sampled_from([0.0, 0.1, 0.3, 0.5, 0.7, 0.9, 1.0])),
@@ -100,9 +109,33 @@ def near_collinear_precomputed(case, ctx):
     ctx.count("near_collinear_checked")
 
 
+def default_solver_optimum(case, ctx):
+    L = case["large"]
+    X, Y, k, mix = L["X"], L["Y"], L["k"], L["mixing"]
+    a = case["alpha"]
+    n, m = X.shape
+    Yhat = X @ np.linalg.solve(X.T @ X + a * np.eye(m), X.T @ Y)
+    w, _ = pc.ktilde_eig(X, Yhat, mix)
+    if w[0] <= 0:
+        return
+    ctx.cls("default_solver_large")
+    with ctx.lib("fit(default solver, larger data)"):
+        p = PCovR(mixing=mix, n_components=k, space=case["space"], regressor=Ridge(alpha=a, fit_intercept=False, tol=1e-12)).fit(X, Y)
+        T = p.transform(X)
+    Q = frame_of(T, w[0])
+    lx, ly = losses(Q, X, Yhat)
+    best = float(mix * (X ** 2).sum() + (1 - mix) * (Yhat ** 2).sum() - w[:k].sum())
+    val = mix * lx + (1 - mix) * ly
+    ctx.true("optimal-value(default solver)", val <= best + 1e-8 * max(1.0, abs(best), float((X ** 2).sum())),
+             "%dx%d data, k=%d, mixing %g, svd_solver left at its default: objective %.10g exceeds the optimum %.10g" % (n, m, k, mix, val, best))
+    ctx.count("default_solver_large_checked")
+
+
 def check(case, ctx):
     if case.get("ill") is not None:
         near_collinear_precomputed(case, ctx)
+    if case.get("large") is not None:
+        default_solver_optimum(case, ctx)
     X, Y, k, space, a = case["X"], case["Y"], case["k"], case["space"], case["alpha"]
     n, m = X.shape
     ctx.cls("shape=" + case["shape"], "lowrank=%s" % case["lowrank"], "space=" + space, "mixing=%g" % case["mixing"])
